@@ -15,7 +15,7 @@ func init() { register("C01", C01) }
 
 // C01 — every genetic operator and epoch yields only well-formed genomes.
 func C01(p *Prog, r *Run) {
-	r.Explanation = "Well-formedness is an inductive closure property over unbounded operator histories; decided are the per-operator mechanisms that preserve it: (1) who may write the gene list, node list, node index and trait list of a genome; (2) every node that enters a genome's list enters its id index too; (3) structural mutators add genes and nodes only through the ordered insertion helpers, whose two implementations agree as algorithms modulo the key and return a list containing the new element; (4) crossover: interface nodes of all three roles seeded, endpoints of a child gene are child nodes selected by the chosen gene's own endpoint ids, a copy is appended only after a non-bypassable scan for a genetically equal link (rules shared with C04); (5) add-link: target never a sensor, no gene with equal (in id, out id, recurrence) already present (shared with C05); connect-sensors adds only missing links; (6) reuse guards: the node of a reused add-node innovation is inserted only past !haveNode, a reused link is excluded by haveGene or already by the scan; (7) duplication remaps every node and trait reference by id into the copy's own lists (shared with C06); (8) a new gene carries a fresh or a completely matched innovation number (shared with C03); (9) Genesis fails only for a genome without connection genes or without output nodes (shared with C11.7); (10) trait references: every node and gene that enters a crossover child gets nil or an element of the trait list handed to NewGenome, the copy of an endpoint node is inserted into the very list that was searched for its id, mutators store only own traits, the random constructor only traits of the list it builds, and nothing else writes a trait reference. Not decided: the induction itself; that the merge walk of the crossovers emits ascending innovation numbers; array-content facts beyond the sibling agreement of the insertion helpers."
+	r.Explanation = "Well-formedness is an inductive closure property over unbounded operator histories; decided are the per-operator mechanisms that preserve it: (1) who may write the gene list, node list, node index and trait list of a genome; (2) every node that enters a genome's list enters its id index too; (3) structural mutators add genes and nodes only through the ordered insertion helpers, whose two implementations agree as algorithms modulo the key (a key handed to a shared routine as a pure field-selecting function is read as that field), return a list containing the new element, and leave each step of their descending split-index walk only as the key comparison on that path justifies (on below i under k <= key(list[i]), split i+1 under k >= key(list[i]), split i under equality); (4) crossover: interface nodes of all three roles seeded, endpoints of a child gene are child nodes selected by the chosen gene's own endpoint ids, a copy is appended only after a non-bypassable scan for a genetically equal link (rules shared with C04); (5) add-link: target never a sensor, no gene with equal (in id, out id, recurrence) already present (shared with C05); connect-sensors adds only missing links; (6) reuse guards: the node of a reused add-node innovation is inserted only past !haveNode, a reused link is excluded by haveGene or already by the scan; (7) duplication remaps every node and trait reference by id into the copy's own lists (shared with C06); (8) a new gene carries a fresh or a completely matched innovation number (shared with C03); (9) Genesis fails only for a genome without connection genes or without output nodes (shared with C11.7); (10) trait references: every node and gene that enters a crossover child gets nil or an element of the trait list handed to NewGenome, the copy of an endpoint node is inserted into the very list that was searched for its id, mutators store only own traits, the random constructor only traits of the list it builds, and nothing else writes a trait reference. Not decided: the induction itself; that the merge walk of the crossovers emits ascending innovation numbers; array-content facts beyond the sibling agreement of the insertion helpers."
 	sums := NewSummaries(p)
 	gf := func(n string) *types.Var { return p.Field(PkgG, "Genome", n) }
 
@@ -166,6 +166,7 @@ func C01(p *Prog, r *Run) {
 	r.Rule("C01.3", "ordered insertion: structural mutators add genes and nodes only through geneInsert / nodeInsert; both helpers are the same algorithm modulo the key and return a list containing the new element", func() {
 		r.c01OrderedInsertion()
 		r.c01ScanBound()
+		r.c01SplitDecision()
 		r.c01SinglePointOrder()
 	})
 
